@@ -5,7 +5,7 @@ VERIF = os.path.dirname(os.path.dirname(os.path.abspath(__file__)))
 CHECKS = {
  'C16': dict(
     text='TLC model-checks spec/SDict.tla (ordered-map machine, full add_item argument space) exhaustively; every '
-         'explored edge is replayed on SortableDict, MetadataObject and the column map of a Grid (grid.column, whose validator is the version gate) and long seeded histories of the real classes '
+         'explored edge is replayed on SortableDict, MetadataObject and the column map of a Grid (grid.column, whose validator is the version gate) and long seeded histories (every fourth one starting from the constructor with an initial object, a twin map and the object observed throughout) of the real classes '
          'are validated by Trace_SDict.tla.  Exhaustive within the bound, independent oracle.',
     ref='DESIGN.md 5/C16', technique='TLA+ spec SDict + TLC exhaustive model check; TLC edge generation replayed on the code; TLC trace validation of recorded histories',
     note='keys/values are small abstract alphabets; negative indices not claimed; TLC, CPython trusted'),
@@ -15,7 +15,7 @@ CHECKS = {
          'exhaustively; TLC prints every state with its observation table and every edge, each edge is replayed on real Grids (cold and warm id '
          'index) and all observations compared; seeded random histories (two live grids: the parent of a derivation stays parked and the history switches between them) are validated by Trace_GridSeq.tla.',
     ref='DESIGN.md 5/C14', technique='TLA+ spec GridSeq + TLC exhaustive model check; TLC state/edge generation replayed on the code; TLC trace validation',
-    note='rows identified by object identity over a small alphabet; MaxLen 3 in the exhaustive part; slice assignment g[a:b] = rows follows the list model with an atomic refusal (ops setslice / setslice_row)'),
+    note='rows identified by object identity over a small alphabet; MaxLen 3 in the exhaustive part; slice assignment g[a:b] = rows follows the list model with an atomic refusal (ops setslice / setslice_row); del g[a:b:st] and g[a:b:st] with negative and positive steps (delstep / slicestep)'),
  'C15': dict(
     text='Same GridSeq engine: after every replayed edge and every event of every random history, g[key] and g.get(key) for str/int/Ref keys '
          'must return a row the model\'s scan LookupAllowed(rows, key) permits, else KeyError/default.',
@@ -75,11 +75,11 @@ CHECKS = {
          'hszinc\'s outcome on each (grid / ZincParseException(line, col) / other / timeout) is judged by TLC with the reader machine: structurally broken text (reason in ZincRead.Structural) must be rejected, '
          'accepted text must be read as the machine reads it, the reported position must lie within the text; seeded random strings, splices and scalar tokens too.',
     ref='DESIGN.md 5/C09', technique='TLA+ mutation operators over ZincWrite documents enumerated by TLC; reader machine ZincRead as the oracle in TLC trace judgement',
-    note='non-structural rejections of the machine (calendar ranges, cell counts, unknown tokens, ambiguous escapes) leave hszinc either outcome; 5 s budget per call'),
+    note='non-structural rejections of the machine (calendar ranges, cell counts, unknown tokens, ambiguous escapes) leave hszinc either outcome; 5 s budget per call; a call during which the budget ran out counts as a time-out whatever exception comes back'),
 
  'C10': dict(
     text='spec/Gate.tla: the grid as a gate machine (version, given, stored kinds) with Accepts(version, kind) decided through Version.tla\'s nearest official version; TLC enumerates every declared '
-         'version x every sequence of <=2 stores (30 public entry paths, incl. column metadata handed over as a plain dict or a fresh metadata object and stores into deep copies, x 6 kinds) and the constructor paths, checks the gate invariant on the model and prints the expected outcome of each step; every '
+         'version x every sequence of <=2 stores (35 public entry paths, incl. slice assignment in every argument form, column metadata handed over as a plain dict / a fresh metadata object / adopted from another grid, and stores into deep copies, x 6 kinds) and the constructor paths, checks the gate invariant on the model and prints the expected outcome of each step; every '
          'case is replayed on a real Grid (outcome, version after, refused store leaves the grid unchanged).  The accept/refuse decision of the deciders (grid, ZINC/JSON writer, ZINC/JSON reader, both scalar readers, nested grids, grids that came out of a reader, writers given a grid edited behind the gate) '
          'for 6 versions x 5 kinds is recorded and judged by TLC (Trace_Gate.tla).  GridSeq additionally carries GateInv through arbitrary row-operation histories.',
     ref='DESIGN.md 5/C10', technique='TLA+ spec Gate (+Version.Nearest) enumerated by TLC, every case replayed on the code; TLC-judged decision table of the five deciders',
